@@ -2135,11 +2135,12 @@ Definition te_from_api (x : list (N * list api_te_sub)) : option (list te_tlv) :
 (* packet::tunnel_encap::encode *)
 Definition ebs_seg_bytes (e : option ebs) : list N :=
   match e with Some (Ebs beh bl nl fl al) => be16 beh ++ [0; 0; bl; nl; fl; al] | None => [] end.
-Definition seg_bytes (g : te_seg) : list N :=
+Definition seg_value (g : te_seg) : list N :=
   match g with
-  | SegA f label => tlv8 1 (f :: 0 :: be32 (label * 4096))
-  | SegB f sid e => tlv8 13 (f :: 0 :: sid ++ ebs_seg_bytes e)
+  | SegA f label => f :: 0 :: be32 (label * 4096)
+  | SegB f sid e => f :: 0 :: sid ++ ebs_seg_bytes e
   end.
+Definition seg_bytes (g : te_seg) : list N := tlv8 (match g with SegA _ _ => 1 | SegB _ _ _ => 13 end) (seg_value g).
 Definition seglist_value (sl : option (N * N) * list te_seg) : list N :=
   0 :: (match fst sl with Some (f, w) => tlv8 9 (f :: 0 :: be32 w) | None => [] end) ++ flat_map seg_bytes (snd sl).
 Definition opt_bytes {A B} (o : option A) (f : A -> list B) : list B := match o with Some x => f x | None => [] end.
